@@ -59,6 +59,7 @@ type MProposal struct {
 }
 
 type MState struct {
+	MarkFloor   int64 // model only: missed-block marks below this height can never matter again and are not compared
 	Height      int64
 	Accounts    map[string]*MAcct
 	Delegatees  map[string]*MDeleg
@@ -219,6 +220,21 @@ func stakeStr(s *MStake) string {
 	return fmt.Sprintf("{owner=%s to=%s tx=%s start=%d refund=%d power=%d}", s.Owner[:8], s.To[:8], s.TxHash[:8], s.Start, s.Refund, s.Power)
 }
 
+// stakeCmp is the compared form of a stake: the start height is bookkeeping no property speaks about.
+func stakeCmp(s *MStake) string {
+	return fmt.Sprintf("{owner=%s to=%s tx=%s refund=%d power=%d}", s.Owner, s.To, s.TxHash, s.Refund, s.Power)
+}
+
+func delegCmp(g *MDeleg) string {
+	var sb strings.Builder
+	fmt.Fprintf(&sb, "self=%d total=%d pub=%s stakes=[", g.Self, g.Total, g.PubKey)
+	for _, s := range g.Stakes {
+		sb.WriteString(stakeCmp(s))
+	}
+	sb.WriteString("]")
+	return sb.String()
+}
+
 func delegStr(g *MDeleg, withMarks bool) string {
 	var sb strings.Builder
 	fmt.Fprintf(&sb, "self=%d total=%d pub=%s stakes=[", g.Self, g.Total, g.PubKey)
@@ -286,8 +302,8 @@ func diffStates(exp, obs *MState) []Diff {
 		if e.Name != o.Name || e.DocURL != o.DocURL {
 			out = append(out, Diff{Area: "acct.meta", Key: k, Msg: fmt.Sprintf("expected name=%q url=%q observed name=%q url=%q", e.Name, e.DocURL, o.Name, o.DocURL)})
 		}
-		if e.Code != o.Code {
-			out = append(out, Diff{Area: "acct.code", Key: k, Msg: fmt.Sprintf("expected %s observed %s", e.Code, o.Code)})
+		if (e.Code == "") != (o.Code == "") {
+			out = append(out, Diff{Area: "acct.code", Key: k, Msg: fmt.Sprintf("contract marker expected %q observed %q", e.Code, o.Code)})
 		}
 	}
 	dk := map[string]bool{}
@@ -305,11 +321,11 @@ func diffStates(exp, obs *MState) []Diff {
 		case o == nil:
 			out = append(out, Diff{Area: "deleg", Key: k, Msg: "missing delegatee " + delegStr(e, true)})
 		default:
-			if delegStr(e, false) != delegStr(o, false) {
+			if delegCmp(e) != delegCmp(o) {
 				out = append(out, Diff{Area: "deleg", Key: k, Msg: "expected " + delegStr(e, false) + " observed " + delegStr(o, false)})
 			}
-			if fmt.Sprint(e.NotSigned) != fmt.Sprint(o.NotSigned) {
-				out = append(out, Diff{Area: "deleg.marks", Key: k, Msg: fmt.Sprintf("expected marks %v observed %v", e.NotSigned, o.NotSigned)})
+			if em, om := marksFrom(e.NotSigned, exp.MarkFloor), marksFrom(o.NotSigned, exp.MarkFloor); fmt.Sprint(em) != fmt.Sprint(om) {
+				out = append(out, Diff{Area: "deleg.marks", Key: k, Msg: fmt.Sprintf("expected missed-block marks %v observed %v (window starts at %d)", em, om, exp.MarkFloor)})
 			}
 		}
 	}
@@ -327,7 +343,7 @@ func diffStates(exp, obs *MState) []Diff {
 			out = append(out, Diff{Area: "frozen", Key: k, Msg: "unexpected unbonding stake " + stakeStr(o)})
 		case o == nil:
 			out = append(out, Diff{Area: "frozen", Key: k, Msg: "missing unbonding stake " + stakeStr(e), Lost: e})
-		case *e != *o:
+		case stakeCmp(e) != stakeCmp(o):
 			out = append(out, Diff{Area: "frozen", Key: k, Msg: "expected " + stakeStr(e) + " observed " + stakeStr(o)})
 		}
 	}
@@ -385,5 +401,15 @@ func diffStates(exp, obs *MState) []Diff {
 		}
 		return out[i].Key < out[j].Key
 	})
+	return out
+}
+
+func marksFrom(m []int64, floor int64) []int64 {
+	var out []int64
+	for _, h := range m {
+		if h >= floor {
+			out = append(out, h)
+		}
+	}
 	return out
 }
